@@ -283,9 +283,6 @@ Proof.
   rewrite H. simpl. exact IH.
 Qed.
 
-(** definitions form a dict: unique names; every definition is itself a dict *)
-Definition wf_defs (defs : defmap) : Prop :=
-  NoDup (map fst defs) /\ forall n d, In (n, d) defs -> wf d.
 
 Lemma d_lookup_In defs n d : NoDup (map fst defs) -> In (n, d) defs -> d_lookup defs n = Some d.
 Proof.
@@ -698,14 +695,6 @@ Section Termination.
 End Termination.
 
 (** * Existence of the semantic expansion for acyclic definitions *)
-Fixpoint Efuel (defs : defmap) (f : nat) (s k : sym) : Q :=
-  match f with
-  | O => 0
-  | S f' => match d_lookup defs s with
-            | None => delta s k
-            | Some d => xdim (Efuel defs f') d k
-            end
-  end.
 
 Section ExpansionExists.
   Variable defs : defmap.
@@ -738,12 +727,6 @@ Theorem expansion_exists defs : acyclic defs -> exists E, is_expansion defs E.
 Proof. intros [rank Hrank]. exists (Efuel defs (enough defs rank)). apply expansion_exists_rank. exact Hrank. Qed.
 
 (** * Histories of define / clear *)
-Fixpoint last_def (h : list event) (n : sym) (cur : option umap) : option umap :=
-  match h with
-  | [] => cur
-  | Clear :: r => last_def r n None
-  | Define m u :: r => last_def r n (if Pos.eqb n m then Some u else cur)
-  end.
 
 Lemma d_lookup_set defs m u n : d_lookup (d_set defs m u) n = if Pos.eqb n m then Some u else d_lookup defs n.
 Proof.
@@ -769,8 +752,6 @@ Proof. unfold d_run. rewrite fold_left_app. reflexivity. Qed.
 Lemma d_run_app h1 h2 : d_run (h1 ++ h2) = fold_left d_step h2 (d_run h1).
 Proof. unfold d_run. apply fold_left_app. Qed.
 
-Definition wf_history (h : list event) : Prop :=
-  forall n u, In (Define n u) h -> wf u.
 
 Lemma names_d_set defs m u : map fst (d_set defs m u) = if existsb (Pos.eqb m) (map fst defs) then map fst defs else map fst defs ++ [m].
 Proof.
